@@ -4,7 +4,7 @@
    source (Generated/C15Sentinels.v, Generated/C15Sites.v); nothing about the predefined
    statuses is typed in here by hand.
    case inputs  = ((OP ...) ((sPKG sNAME) ...))
-     OP = (scall_ok) | (scall_404) | (scall_badbody xCAUSE) | (scall_panic xCAUSE)
+     OP = (scall_ok) | (scall_404) | (scall_404_http) | (scall_badbody xCAUSE) | (scall_panic xCAUSE) | (scall_panic_http xCAUSE)
         | (scall_custom zCODE xMSG xCAUSE) | (sclosed_call) | (sclosed_push) | (sdial_fail xCAUSE)
         | (smtype_405) | (sunprepared) | (swrite_failed) | (sproxy_call FWD)
         | (sproxy_call_panicked FWD xCAUSE) | (sproxy_push FWD)
@@ -56,7 +56,8 @@ Definition event_of_val (t : table) (v : val) : option event :=
       match args with
       | [] =>
           if keq k "call_ok" then Some EOkWire
-          else if keq k "call_404" then Some (ERemoteReturn (root "statNotFound"))
+          else if keq k "call_404" then Some (ERemoteReturn WQuery (root "statNotFound"))
+          else if keq k "call_404_http" then Some (ERemoteReturn WJson (root "statNotFound"))
           else if keq k "closed_call" then Some (EReturn (root "statConnClosed"))
           else if keq k "closed_push" then Some (EReturn (root "statConnClosed"))
           else if keq k "mtype_405" then Some (ESilent (root "statCodeMtypeNotAllowed"))
@@ -67,12 +68,13 @@ Definition event_of_val (t : table) (v : val) : option event :=
             Some (ECopy (root "statDialFailed") (cause_of t (str "plugin/auth", str "MultiSendErr")))
           else None
       | [VB c] =>
-          if keq k "call_badbody" then Some (ERemoteCopy (root "statBadMessage") c)
-          else if keq k "call_panic" then Some (ERemoteCopy (root "statInternalServerError") c)
+          if keq k "call_badbody" then Some (ERemoteCopy WQuery (root "statBadMessage") c)
+          else if keq k "call_panic" then Some (ERemoteCopy WQuery (root "statInternalServerError") c)
+          else if keq k "call_panic_http" then Some (ERemoteCopy WJson (root "statInternalServerError") c)
           else if keq k "dial_fail" then Some (ECopy (root "statDialFailed") c)
           else None
       | [VZ code; VB m; VB c] =>
-          if keq k "call_custom" then Some (ERemoteFresh (mkStatus code m (Some c))) else None
+          if keq k "call_custom" then Some (ERemoteFresh WQuery (mkStatus code m (Some c))) else None
       | [VS sh; VS field; VB c] =>
           if keq k "binder" then
             let shared := if bytes_eqb sh (str "true") then Some (str "user", str "bindShared") else None in
@@ -85,14 +87,14 @@ Definition event_of_val (t : table) (v : val) : option event :=
       | [f; VB c] =>
           if keq k "proxy_call_panicked" then
             match fwd_of_val f with
-            | Some _ => Some (ERemoteCopy (root "statInternalServerError") c)
+            | Some _ => Some (ERemoteCopy WQuery (root "statInternalServerError") c)
             | None => None
             end
           else None
       | [x] =>
           if keq k "proxy_call" then option_map EProxyCall (fwd_of_val x)
           else if keq k "proxy_push" then option_map EProxyPush (fwd_of_val x)
-          else if keq k "secure_fail" then option_map ERemoteFresh (status_of_val x)
+          else if keq k "secure_fail" then option_map (ERemoteFresh WQuery) (status_of_val x)
           else None
       | _ => None
       end
